@@ -11,7 +11,7 @@ from ..engine_a import run_body
 from ..loader import AnalysisError, src_of
 from ..models import HashV
 from ..report import Result, Violation
-from .c19 import struct_equal, term_rules
+from .c19 import struct_equal
 
 TECHNIQUE = ("abstract interpretation of the Term class itself on small symbolic terms (convertible, unconvertible "
              "and foreign units, numeric elements of every rational kind, all item orders and sort orders): "
@@ -416,8 +416,9 @@ def run(prog, tier) -> Result:
               if (isinstance(n, ast.Constant) and isinstance(n.value, float)) or
               (isinstance(n, ast.Call) and src_of(n.func) in ("float", "math.pow", "pow")) or
               (isinstance(n, ast.Name) and n.id == "math")]
-    res.ob("R07.1", "quantity/term.py", "no float literal / float() / math", not floaty, str(floaty),
-           sig="float primitive in the term module", nontrivial=False)
+    # informational only: a float reaching a term's arithmetic is reported by the evaluated rules (float flags of
+    # Engine A on every operation path); a float elsewhere in the module (a repr, a message) is harmless
+    res.notes.append(f"float primitives spelled in term.py: {floaty or 'none'}")
 
     res.require("R07.4", 40)
     res.require("R07.2", 16)
